@@ -1,0 +1,31 @@
+// Copyright 2020-2025 Buf Technologies, Inc.
+//
+// Licensed under the Apache License, Version 2.0 (the "License");
+// you may not use this file except in compliance with the License.
+// You may obtain a copy of the License at
+//
+//      http://www.apache.org/licenses/LICENSE-2.0
+//
+// Unless required by applicable law or agreed to in writing, software
+// distributed under the License is distributed on an "AS IS" BASIS,
+// WITHOUT WARRANTIES OR CONDITIONS OF ANY KIND, either express or implied.
+// See the License for the specific language governing permissions and
+// limitations under the License.
+
+//go:build !verif
+
+// Package verifhook provides observation and fault-injection points for
+// runtime verification. Without the "verif" build tag every function is a no-op.
+package verifhook
+
+// Point marks a named point in an execution.
+func Point(string) {}
+
+// Trace records a named event with a value.
+func Trace(string, int) {}
+
+// WriteFault lets a write result pass through unchanged.
+func WriteFault(_ string, n int, err error) (int, error) { return n, err }
+
+// ErrFault lets an error result pass through unchanged.
+func ErrFault(_ string, err error) error { return err }
